@@ -1,5 +1,15 @@
 """Registry of checks: source of MANIFEST.json (bin/mkmanifest) and of bin/check's dispatch table."""
 REG = {
+ 'C02': dict(module='hostile', engine='hostile', category='model_checking', design_ref='4/C02',
+   technique='TLA+ spec Hostile over CoapWire (decoder as well-formedness oracle) + TLC judging what a real endpoint does with generated hostile datagrams; sanitizers observe memory safety',
+   text='Hostile.tla classifies every delivered datagram with CoapWire!DecUDP (the RFC 7252 decoder of the codec family). A real server endpoint (plain, in the middle of a Block1 upload, '
+        'with a registered observer) and a real client session with a request outstanding receive base messages and their systematic mutations (every truncation, byte substitutions, '
+        'header bit flips, inserted payload markers and reserved nibbles, doubled and extended messages), random byte strings of length 0..1500 and sequences of up to 150 hostile '
+        'datagrams, each delivered alone and followed by a quiet period, with debug logging switched on. TLC requires that a malformed datagram never reaches a request or response handler '
+        'and is answered by nothing but a Reset or an error response, and that after every sequence a well-formed canary request is answered 2.05 with the right payload. A crash, abort, '
+        'sanitizer report or an endpoint that does not become quiet fails the run it happened in (the driver restarts after it).',
+   note='Memory safety / undefined behaviour are observed (ASan, UBSan), not decided by the specification. UDP only: stream segmentation incl. malformed messages is C05; the WebSocket '
+        'HTTP/frame reader and OSCORE-protected hostile input are not covered.'),
  'C06': dict(module='msg', engine='msg', category='model_checking', design_ref='4/C06',
    technique='TLA+ spec Reliability (TLC closed model) + trace validation of the real client on a simulated lossy network',
    text='Closed model MC_Reliability (Reliability+Exchange with lossy/duplicating network and de-duplicating peer) is model-checked '
